@@ -424,6 +424,11 @@ Definition pd_cell_ref (scale : Z) (ck : colkind) (v : option json) : pcell :=
   | CKObj, None => PNone
   end.
 
+(* the row of shape s as df.to_dict('records') returns it, for a pandas codec [pd_cell] that
+   may depend on the column *)
+Definition gpd_record (pd_cell : string -> option json -> pcell) (keys : list string) (s : shape) : prow :=
+  map (fun kv => (fst kv, pd_cell (fst kv) (snd kv))) (gpd_row keys s).
+
 Definition is_pdt (o : option pcell) : bool := match o with Some (PDt _) => true | _ => false end.
 
 (* from_geopandas._get_dt.  Only the combinations to_geopandas can produce are modelled
